@@ -15,11 +15,15 @@ from common import unq
 
 CONFIG = {
     "cone": ["Base/MixedRadix.v", "Model/Grid.v", "Model/GridFloat.v", "Model/CVT.v", "Model/SlidingIndex.v", "Proofs/GridProofs.v",
-             "Proofs/CVTProofs.v", "Proofs/SlidingIndexProofs.v", "Generated/GridGen.v", "Refine/GridRefine.v", "Properties/C03.v", "Model/RunC03.v"],
-    "extra_property_files": ["Refine/GridRefine.v"],
+             "Proofs/CVTProofs.v", "Proofs/SlidingIndexProofs.v", "Generated/GridGen.v", "Refine/GridRefine.v", "Properties/C03.v", "Model/RunC03.v",
+             "Model/GridRound.v", "Proofs/GridRoundProofs.v", "Generated/GridGenR.v", "Refine/GridRoundRefine.v", "Properties/C03Float.v"],
+    "extra_property_files": ["Refine/GridRefine.v", "Refine/GridRoundRefine.v", "Properties/C03Float.v"],
     "trusted": ["harness/py2v_grid.py: fail-closed translator of the index arithmetic of GridArchive.index_of (raw expression, clip bounds, clip-then-cast order) "
                 "and of the clip expression / searchsorted side / max(0, .-1) of SlidingBoundariesArchive.index_of into Generated/GridGen.v on every run; "
-                "Refine/GridRefine.v proves them equal to the models for all arguments",
+                "Refine/GridRefine.v proves them equal to the models for all arguments; the same raw expression is also emitted over R with one rounding per "
+                "operation (Generated/GridGenR.v) and proved equal to Model/GridRound.v in Refine/GridRoundRefine.v",
+                "Model/GridRound.v reads floating-point arithmetic as 'exact operation followed by a monotone rounding' (Flocq's generic round; no "
+                "overflow, no NaN): infinities produced by overflow are outside it (np.clip sends them to the edge cell) and are covered per instance by GridFloat.v",
                 "Model/Grid.v is the exact-rational reading of GridArchive.index_of with a non-wrapping integer cast (= the repaired "
                 "clip-then-cast code, C03_grid_clip_first_eq); float rounding is outside it: the exact stream compares only inputs "
                 "farther from every cell edge than a rounding margin, near-edge inputs are decided by monotonicity, by the "
@@ -34,12 +38,16 @@ CONFIG = {
                   "the clip-then-cast code equals it while the cast-then-clip code (pre-fix) is refuted by a witness; ravel/unravel are "
                   "inverse bijections for every dims list; index_of_single = index_of at every batch position; CVT brute force returns a "
                   "minimiser (first on ties) for every centroid list, chunking is invisible, any two minimisers are equidistant; the "
-                  "sliding index satisfies its searchsorted specification, is in range and monotone for every sorted boundary list. Tied to "
+                  "sliding index satisfies its searchsorted specification, is in range and monotone for every sorted boundary list. "
+                  "coq/Properties/C03Float.v: the grid index in ROUNDED arithmetic (one rounding per operation, any radix / format / rounding "
+                  "direction, the four operations possibly in different formats) is in range and monotone for every real coordinate, 0 at or below "
+                  "the lower bound, and d-1 at or above the upper bound for binary64 round-to-nearest-even under explicit accuracy conditions (d <= 2^51). Tied to "
                   "ribs/archives by differential runs against all four archive types on every run.",
     "level_note": "Trusted: Coq kernel and vm_compute; extraction + OCaml driver; the hand-written models (sampled tie only); the harness; "
                   "scipy's cKDTree is checked per answer, not modelled. Float rounding near cell edges is covered per instance "
                   "(bit-exact model on generated inputs), not universally. No axioms beyond Coq's primitive-float/int63 primitives in GridFloat.v "
-                  "(Properties/C03.v is closed under the global context).",
+                  "(Properties/C03.v is closed under the global context); Properties/C03Float.v uses Coq's real numbers and Flocq and therefore depends on the "
+                  "standard library's sig_forall_dec, functional_extensionality_dep (and classic where Flocq's relative-error lemmas need it).",
     "technique": "Rocq/Coq proof over executable Gallina models (exact Q + bit-exact PrimFloat) + model-vs-implementation correspondence run",
     "design_ref": "DESIGN.md section 5, C03",
 }
@@ -48,7 +56,8 @@ INT32_LIMIT = 2 ** 31
 THEOREMS = {
     "grid": ["C03_grid_range", "C03_grid_monotone", "C03_grid_edge_high", "C03_grid_edge_low", "C03_grid_shift", "C03_grid_in_cell",
              "C03_grid_in_cell_or_next", "C03_grid_boundary_above", "C03_grid_clip_first_eq", "C03_grid_index_cells", "C03_grid_single_is_batch"],
-    "gridmono": ["C03_grid_monotone", "C03_grid_index_monotone", "C03_grid_edge_high", "C03_grid_edge_low"],
+    "gridmono": ["C03_grid_monotone", "C03_grid_index_monotone", "C03_grid_edge_high", "C03_grid_edge_low", "C03_float_grid_monotone",
+                 "C03_float_grid_range", "C03_float_grid_edge_low", "C03_float_grid_edge_high_binary64"],
     "gridbnd": ["C03_grid_boundary_above"],
     "gridfloat": ["Model/GridFloat.v idx_f_clip_first (bit-exact correspondence)", "C03_grid_clip_first_eq"],
     "biject": ["C03_grid_int_grid_inverse", "C03_unravel_ravel", "C03_ravel_unravel"],
